@@ -171,7 +171,66 @@ def coq_op(L, op):
         return f"(ODocSet {n(op[1])} {L.s(op[2])} {L.json(untyped(op[3]))})"
     if k == "Snap":
         return "OSnap"
+    if k == "Pickle2":
+        return f"(OPickle2 {n(op[1])} {n(op[2])})"
+    if k == "Fresh":
+        h2 = "None" if op[2] is None else f"(Some {n(op[2])})"
+        return f"(OFresh {n(op[1])} {h2} {coq_list([coq_fop(L, f) for f in op[3]], 'fop')})"
     raise ValueError(op)
+
+
+def coq_fop(L, f):
+    k = f[0]
+    if k == "Edit":
+        return f"(FEdit {coq_nat(f[1])} {coq_list([coq_step(L, s) for s in f[2]], 'pstep')} {coq_act(L, f[3])})"
+    if k == "Init":
+        return f"(FInit {coq_nat(f[1])})"
+    if k == "DocSet":
+        return f"(FDocSet {coq_nat(f[1])} {L.s(f[2])} {L.json(untyped(f[3]))})"
+    if k in ("Sp", "Cached", "IdPath"):
+        return f"(F{k} {coq_nat(f[1])})"
+    raise ValueError(f)
+
+
+CHILD = r"""
+import json, logging, os, pickle, sys
+logging.disable(logging.CRITICAL)
+from harness.common import exn_name, to_plain, typed, untyped
+blob, ops, root = sys.argv[1], json.loads(sys.argv[2]), sys.argv[3]
+with open(blob, "rb") as fh:
+    H = pickle.load(fh)
+outs = []
+for f in ops:
+    try:
+        k, j = f[0], H[f[1]]
+        if k == "Edit":
+            obj = j.statepoint
+            for st in f[2]:
+                obj = obj[st[1]]
+            a = f[3]
+            if a[0] == "set":
+                obj[a[1]] = untyped(a[2])
+            elif a[0] == "del":
+                del obj[a[1]]
+            elif a[0] == "seti":
+                obj[a[1]] = untyped(a[2])
+            elif a[0] == "append":
+                obj.append(untyped(a[1]))
+            outs.append(["unit"])
+        elif k == "Init":
+            j.init(); outs.append(["unit"])
+        elif k == "DocSet":
+            j.document[f[2]] = untyped(f[3]); outs.append(["unit"])
+        elif k == "Sp":
+            outs.append(["json", typed(to_plain(j.statepoint()))])
+        elif k == "Cached":
+            outs.append(["json", typed(to_plain(dict(j.cached_statepoint)))])
+        elif k == "IdPath":
+            outs.append(["idpath", j.id, os.path.relpath(j.path, root).split(os.sep)])
+    except Exception as e:
+        outs.append(["exn", exn_name(e)])
+print("OUTS=" + json.dumps(outs))
+"""
 
 
 def coq_oval(L, v):
@@ -196,6 +255,8 @@ def coq_oval(L, v):
         return "VTreeSame"
     if k == "tree":
         return f"(VTree {coq_tree(L, v[1])})"
+    if k == "list":
+        return "(VList " + coq_list([coq_oval(L, x) for x in v[1]], "oval") + ")"
     if k == "optnum":
         return "(VOptNum None)" if v[1] is None else f"(VOptNum (Some {v[1]}%N))"
     if k == "snapsame":
@@ -432,6 +493,28 @@ class World:
                 H.append(j)
                 self.sessions.append(j._project)
                 return ["str", j.id]
+            if k == "Pickle2":
+                a, b = pickle.loads(pickle.dumps([H[op[1]], H[op[2]]]))
+                H.extend([a, b])
+                self.sessions.append(a._project)
+                return ["strs", [a.id, b.id]]
+            if k == "Fresh":
+                import subprocess
+                import sys
+                import tempfile
+                hs = [H[op[1]]] + ([] if op[2] is None else [H[op[2]]])
+                data = pickle.dumps(hs)            # in this process (may raise)
+                with tempfile.NamedTemporaryFile(dir=os.path.dirname(self.root), suffix=".pkl", delete=False) as fh:
+                    fh.write(data)
+                try:
+                    p = subprocess.run([sys.executable, "-c", CHILD, fh.name, json.dumps(op[3]), self.root],
+                                       capture_output=True, text=True, timeout=120)
+                finally:
+                    os.unlink(fh.name)
+                line = [x for x in p.stdout.splitlines() if x.startswith("OUTS=")]
+                if not line:
+                    raise RuntimeError("fresh process failed: " + p.stderr[-300:])
+                return ["list", json.loads(line[0][5:])]
             if k == "Edit":
                 obj = H[op[1]].statepoint
                 for st in op[2]:
